@@ -471,3 +471,41 @@ Section Hist.
     destruct (l_step_counters s o L) as [L1 M1]. destruct (IH _ L1) as [L2 M2]. split; [exact L2|]. eapply cle_trans; eassumption.
   Qed.
 End Hist.
+
+(* ---------- add_relation ---------- *)
+Section AddRel.
+  Variable call : nat -> row -> option str.
+  Variable kind : dbkind.
+
+  (* add_relation(parent, child, level): refused - with nothing changed - unless both features are stored and the
+     triple is new; otherwise exactly that one triple is appended, the child's row is rewritten only when a child_func
+     is given, and nothing else moves (other rows, duplicates, persisted and live counters, backup) *)
+  Lemma l_addrel_refused s p c l rt e : snd (step call kind s (OpAddRel p c l rt)) = Err e ->
+    fst (step call kind s (OpAddRel p c l rt)) = s /\
+    (has_id p (s_rows (m_disk s)) = false \/ has_id c (s_rows (m_disk s)) = false \/ has_rel (mkRel p c l) (s_rels (m_disk s)) = true).
+  Proof.
+    cbn [step]. unfold do_addrel. destruct (has_id p (s_rows (m_disk s))); [|cbn; intros _; split; [reflexivity|left; reflexivity]].
+    destruct (has_id c (s_rows (m_disk s))); [|cbn; intros _; split; [reflexivity|right; left; reflexivity]].
+    cbn [negb orb]. destruct (has_rel _ _); [intros _; split; [reflexivity|right; right; reflexivity]|]. cbn. discriminate.
+  Qed.
+
+  Lemma l_addrel_done s p c l rt : snd (step call kind s (OpAddRel p c l rt)) = Ok tt ->
+    let s' := fst (step call kind s (OpAddRel p c l rt)) in
+    has_id p (s_rows (m_disk s)) = true /\ has_id c (s_rows (m_disk s)) = true /\ has_rel (mkRel p c l) (s_rels (m_disk s)) = false /\
+    s_rels (m_disk s') = s_rels (m_disk s) ++ [mkRel p c l] /\
+    s_rows (m_disk s') = (if rt then update_id c (fun r => set_bin (setf FFtype RETYPED r)) (s_rows (m_disk s)) else s_rows (m_disk s)) /\
+    s_dups (m_disk s') = s_dups (m_disk s) /\ s_auto (m_disk s') = s_auto (m_disk s) /\ m_mem s' = m_mem s /\ m_bak s' = m_bak s.
+  Proof.
+    cbn [step]. unfold do_addrel. destruct (has_id p (s_rows (m_disk s))); [|cbn; discriminate].
+    destruct (has_id c (s_rows (m_disk s))); [|cbn; discriminate]. cbn [negb orb].
+    destruct (has_rel _ _); [cbn; discriminate|]. intros _. cbn. repeat split; reflexivity.
+  Qed.
+
+  (* the keys of the table are those it had (a rewritten child keeps its key and its place) *)
+  Lemma l_addrel_ids s p c l rt : ids (m_disk (fst (step call kind s (OpAddRel p c l rt)))) = ids (m_disk s).
+  Proof.
+    cbn [step]. unfold do_addrel. destruct (negb _ || negb _); [reflexivity|]. destruct (has_rel _ _); [reflexivity|].
+    unfold ids. cbn [fst m_disk s_rows]. destruct rt; [|reflexivity]. unfold update_id. rewrite map_map. apply map_ext_in.
+    intros r _. destruct (str_eqb (r_id r) c); [|reflexivity]. reflexivity.
+  Qed.
+End AddRel.
